@@ -8,7 +8,7 @@ from harness import common
 ID = "C17"
 BOUNDS = {
     "quick": "worklists holding 0..3 records whose free text consists of symbolic Latin-1 characters (every length 0..3 per record, code points 32..255), written "
-             "by save() with a str or Path argument, by leaving the `with` block normally and by an exception, twice in a row (after appending; after replacing a record by another of the same length; after re-entering the `with` block); a pre-existing file of "
+             "by save() with a str or Path argument, by leaving the `with` block normally and by an exception, twice in a row (after appending; after replacing a record by another of the same length; after re-entering the `with` block; after an intermediate save under another file name inside the block); a pre-existing file of "
              "0..6 symbolic bytes (longer and shorter than the new content); file names {x.gwl, X.GWL, x.txt, x, x.gwl.bak, gwl}; __enter__ on a non-empty "
              "worklist; str()/repr() of the worklist",
     "thorough": "records up to length 5, 4 records, pre-existing files up to 12 bytes",
@@ -25,7 +25,7 @@ NAMES = ["x.gwl", "X.GWL", "x.txt", "x", "x.gwl.bak", "gwl"]
 def shards(tier):
     L = 3 if tier == "quick" else 5
     out = []
-    for how in ("save-str", "save-path", "with", "with-exc", "twice", "resave"):
+    for how in ("save-str", "save-path", "with", "with-exc", "twice", "resave", "with-snapshot"):
         for nrec in range(0, 4 if tier == "quick" else 5):
             out.append(dict(part="write", how=how, nrec=nrec, L=L if nrec <= 2 else 1, pre=6 if tier == "quick" else 12))
     out.append(dict(part="names", concrete=True))
@@ -184,6 +184,17 @@ def _scenario(ctx, p, ns, c, part, tmp):
                     for k, b in recs:
                         w.append(_render(k, b))
                     w.append("W2;")
+        c["text"] = (str(wl), repr(wl))
+        return wl
+    if how == "with-snapshot":
+        # history: inside the with block an intermediate snapshot is saved under ANOTHER name; leaving the block still writes the worklist's own file
+        wl = ns.BaseWorklist(path)
+        with wl as w:
+            for k, b in recs:
+                w.append(_render(k, b))
+            w.save(f"{tmp}/snapshot.gwl")
+            w.append("B;")
+        c["extra"] = ["B;"]
         c["text"] = (str(wl), repr(wl))
         return wl
     wl = ns.BaseWorklist(path)
